@@ -40,6 +40,15 @@ def check(ctx):
         for f in fl:
             if name in INPLACE or any(norm(d).endswith("overload") for d in f.node.decorator_list):
                 continue
+            if name.startswith("_") and not name.startswith("__") and not name.startswith("_CompilePipeline__"):
+                # private helpers are judged through their callers: E2 summarises `self._helper(...)` at every call site of a pure
+                # operation, so a helper that writes to self is a violation exactly when a pure operation reaches it
+                callers = [g.qualname for nm2, fl2 in cls.methods.items() for g in fl2 if g is not f and any(
+                    isinstance(c_, ast.Call) and isinstance(c_.func, ast.Attribute) and c_.func.attr == name and isinstance(c_.func.value, ast.Name)
+                    and c_.func.value.id == "self" for c_ in ast.walk(g.node))]
+                rep.proved("R-C23-pure", f"{MOD}:{f.qualname}", f"private helper, analysed at its call sites ({', '.join(sorted(callers)) or 'no caller in the class'})",
+                           nontrivial=False)
+                continue
             params = [a.arg for a in f.node.args.args]
             if not params or params[0] != "self":
                 continue
